@@ -241,6 +241,38 @@ def run(ck):
         ck.verdict(T.resolves_to_call(b, c.args[0], [d.bb for d in drains]) and T.resolves_to_call(b, c.args[1], [poll.bb]), "4", "T6-provenance", b, "batch=drain(synthetic)+polled", "the batch loop iterates the drained synthetic events followed by the polled events", "the batch loop does not iterate drain(synthetic_events) chained with the poll result", site=b.where(c.bb))
     else:
         ck.violation("4", "T6-provenance", b, "batch=drain(synthetic)+polled", "the batch loop does not iterate a chain of the synthetic and the polled events: %s" % b.roots_str(dl.next_cs.args[0]), site=b.where(dl.header))
+    # batch integrity: once the poll has returned, neither event collection is edited before (or while) the batch loop
+    # consumes it - no event is dropped, merged into another one ("dispatch once per token/source") or has its readiness
+    # rewritten. The only consumers are the drain / the by-value iteration of the batch loop and the read-only
+    # EventIterator handed to before_handle_events.
+    EDIT = ("retain", "retain_mut", "remove", "swap_remove", "truncate", "dedup", "dedup_by", "dedup_by_key", "iter_mut", "get_mut", "first_mut", "last_mut", "sort", "sort_by", "sort_by_key", "sort_unstable_by_key", "reverse", "pop", "insert", "split_off", "extract_if", "as_mut_slice", "swap")
+    after_poll = b.reachable([poll.to]) if poll.to is not None else set()
+    views = [b] + [c for c in f.closures_of(b)]
+    edits = []
+    for v in views:
+        for cs in v.calls():
+            if v.is_cleanup(cs.bb) or not cs.args or cs.name not in EDIT:
+                continue
+            if v is b and cs.bb not in after_poll:
+                continue
+            pl0 = op_place(cs.args[0])
+            ts = f.types[f.peel_refs(pl0["t"])]["s"] if pl0 is not None else ""
+            if "PollEvent" in ts:
+                edits.append((v, cs))
+        for i, j, st in v.statements():
+            if st["s"] == "assign" and st["pl"]["p"] and not v.is_cleanup(i) and (v is not b or i in after_poll):
+                names = [p_["n"] for p_ in st["pl"]["p"] if isinstance(p_, dict) and "f" in p_]
+                if names and names[-1] in ("readable", "writable", "error", "token", "readiness") and ("readiness" in names or names[-1] in ("token", "readiness")):
+                    base_ty = f.types[f.peel_refs(v.local_ty(st["pl"]["l"]))]["s"]
+                    if "PollEvent" in base_ty or "Readiness" in base_ty:
+                        edits.append((v, None, i))
+    if edits:
+        for e in edits[:4]:
+            v = e[0]
+            what = e[1].name if e[1] is not None else "store"
+            ck.violation("4", "T7-who-may-write", v, "batch-edited-after-poll:%s" % what, "the collected events are edited (%s) between the poll and their dispatch: an event can be dropped or merged into another one (its sub-token, and with edge / one-shot registrations its readiness, is lost) or delivered with a readiness the poller never reported" % what, site=v.where(e[1].bb if e[1] is not None else e[2]))
+    else:
+        ck.ok("4", "T7-who-may-write", b, "batch-not-edited-after-poll", "between the poll and the batch loop nothing edits the synthetic or the polled events", site=b.where(poll.bb))
     # never carried into a later dispatch
     empt = [cs for cs in T.calls(b, name=("clear", "truncate", "drain", "take")) if T.path_has(b, cs.args[0], SE)]
     first_push = [cs for body, cs in pushes if body.key == b.key]
@@ -299,3 +331,14 @@ def run(ck):
                 if tr and T.reachable_only_via(nx, i, tr) and any(T.path_has(nx, a, ".registration_token") for a in g.args):
                     ok = True
             ck.verdict(ok, "5", "T4-guarded-by", nx, "yield-only-if-same-source", "an event is yielded only on the true edge of same_source_as(registration_token)", "EventIterator::next can yield an event of another source", site=nx.where(i))
+    # .. and all of them: next() answers None only once the underlying iterator is exhausted (the events of one source
+    # need not be adjacent in the batch: those of another source, or expired timers, can sit between them)
+    nones = [(i, j, st) for i, j, st in nx.statements() if st["s"] == "assign" and st["pl"]["l"] in T.ret_locals(nx) and st["rv"]["r"] == "agg" and st["rv"].get("variant") == "None" and not nx.is_cleanup(i)]
+    inner_next = [cs for cs in nx.calls() if cs.name == "next" and (cs.trait or "").endswith("Iterator") and not nx.is_cleanup(cs.bb) and cs.args and (T.path_has(nx, cs.args[0], ".inner") or any(T.path_has(nx, c2.args[0], ".inner") for r_, p_ in nx.resolve(cs.args[0]) if r_[0] == "call" for c2 in [nx.call_at(r_[1])] if c2.args))]
+    if nones and inner_next:
+        exh = []
+        for cs in inner_next:
+            s_, n_ = T.option_split(nx, cs.bb)
+            exh += n_
+        for i, j, st in nones:
+            ck.verdict(bool(exh) and T.reachable_only_via(nx, i, exh), "5", "T4-guarded-by", nx, "None-only-when-exhausted", "next() returns None only on the edge where the underlying iterator returned None", "EventIterator::next can return None before the underlying iterator is exhausted: later events of the same source (the batch is not grouped by source) are missing from what before_handle_events sees", site=nx.where(i))
